@@ -173,17 +173,18 @@ fn decode_direction(type_id: u8, body: &[u8], kind: &str, out: &mut Out) {
             json!({"type_id": type_id, "body": hex_short(body, 160), "error": format!("{:?}", e), "reference": r.to_json()}),
         ),
         (Ok(g), Err(e)) => {
-            if !is_amf(type_id) {
-                // fixed-layout control bodies: short / out-of-range bodies must be refused
+            if type_id == 1 && e.contains("top bit") {
+                // the one malformed control body the statement names explicitly
                 out.violation(
-                    &format!("accepts-malformed-body:type{}", type_id),
+                    "accepts-malformed-body:type1",
                     json!({"type_id": type_id, "body": hex_short(body, 64), "library": RMsg::from_lib(g).to_json(), "reference_error": e}),
                 );
+            } else if !is_amf(type_id) {
+                // other short / unknown-code control bodies: the statement does not require a
+                // refusal (that they cannot panic is C03); counted
+                out.count("lenient_control_body_accepted", 1);
             } else if (type_id == 20 || type_id == 17) && e.contains("fewer than three") {
-                out.violation(
-                    "accepts-command-with-fewer-than-three-values",
-                    json!({"type_id": type_id, "body": hex_short(body, 64), "library": RMsg::from_lib(g).to_json()}),
-                );
+                out.count("lenient_short_command_accepted", 1);
             } else {
                 // AMF bodies the reference rejects (truncated, trailing garbage): the library
                 // may return a prefix by design (C12); only the monitors for panics apply here
@@ -334,7 +335,7 @@ impl Check for C13 {
     fn assumptions(&self) -> Vec<String> {
         vec![
             "a well-formed UserControl message carries exactly the fields its event defines".to_string(),
-            "AMF bodies the strict reference rejects (truncated, trailing bytes) may be decoded leniently by the library; only fixed-layout control bodies must be refused when malformed".to_string(),
+            "bodies the strict reference rejects (truncated, trailing bytes, unknown codes) may be decoded leniently by the library - counted; the one refusal the statement names, a chunk size with the top bit set, is required in both directions".to_string(),
         ]
     }
     fn required_counters(&self, _tier: Tier) -> Vec<String> {
